@@ -794,6 +794,8 @@ class PathEnum:
                 env[dk] = env["@ref:_%d" % p["local"]]  # reborrow &mut *r
             elif self.versioned and p["proj"][0]["k"] == "deref" and 1 <= p["local"] <= self.fn.nargs and not any(e["k"] == "deref" for e in p["proj"][1:]):
                 env[dk] = pp.place_s(p)  # &mut (*arg) or &mut (*arg).field
+                if self.frame:
+                    env["@place:" + pp.place_s(p)] = p      # inside an inlined callee: remember the place itself (see _havoc_key)
         elif rv["k"] == "use" and rv["op"]["k"] in ("copy", "move"):
             sk = "@ref:" + pp.place_s(rv["op"]["place"])
             if sk in env:
@@ -827,6 +829,10 @@ class PathEnum:
                     env["_%s" % root] = ("argv", cur[1] if cur[0] in ("arg", "argv") else ("of", cur), "f%d" % _FRESH[0])
             else:
                 cur = env.get(key)
+                if cur is None and self.frame and ("@place:" + key) in env:
+                    # inside an inlined callee the parameter is bound to the caller's term: name the object as the caller
+                    # does (self.outbox.in_flight), not relative to this frame's `self`
+                    cur = self.read_place(env, env["@place:" + key])
                 for k in [k for k in env if k.startswith(key + ".") or k.startswith(key + "[")]:
                     del env[k]
                 env[key] = ("mut", cur if cur is not None else ("place", key, env.get("@ver:_%s" % root, 0)), path)
